@@ -498,8 +498,9 @@ def plan(case):
     An operation is skipped when its target does not exist, is a view and the operation mutates, or shares its
     column lists with another table object that has been mutated since (copy() and where() share storage; what the
     other object then shows is not something the property speaks about)."""
-    tables = [{"data": 0, "view": False, "dead": False}]
+    tables = [{"data": 0, "view": False, "dead": False, "fresh": True}]
     out = []
+    stale_mode = bool(case.get("stale"))     # Phase 4: aliases stay alive after another object's mutation; (B) is then asked of fresh objects only
 
     def aliases(t):
         """live table objects that share the column lists of table t: (id, is a copy-sibling i.e. not a view)"""
@@ -515,10 +516,18 @@ def plan(case):
             ok = False
         if ok and k == "where" and op.get("pred") is None and not op.get("kws"):
             ok = False
-        out.append({"skip": not ok, "creates": creates})
+        if ok and stale_mode and k in ("insert", "index") and tables[t].get("lag"):
+            # another object may have added columns to the shared dict that this object's _columns do not list: a mutation through it leaves
+            # the lists with different lengths (IndexError in the code where the model pads) - not modelled, not performed
+            ok = False
+        if ok and stale_mode and k == "copy" and not tables[t].get("fresh", True):
+            # copy() of an object whose dict gained a column through another object takes the `else` branch of Table.__init__
+            # (data.keys() != set(columns)): an independent table with its own lists and the extra column - separate storages are not modelled
+            ok = False
+        out.append({"skip": not ok, "creates": creates, "stale": bool(ok and not tables[t].get("fresh", True))})
         if not ok:
             if creates:
-                tables.append({"data": -1, "view": True, "dead": True})
+                tables.append({"data": -1, "view": True, "dead": True, "fresh": False})
             continue
         if k == "insert":
             payload = op.get("rows") if op["shape"] != "cols" else op.get("cols")
@@ -526,17 +535,23 @@ def plan(case):
                 out[-1]["aliases"] = aliases(t)       # looked at once, right after the mutation, then left alone
                 for i, x in enumerate(tables):
                     if i != t and x["data"] == tables[t]["data"]:
-                        x["dead"] = True
+                        x["fresh"] = False
+                        if op["shape"] != "rows":
+                            x["lag"] = True
+                        if not stale_mode:
+                            x["dead"] = True
         elif k == "index":
             if op["cols"]:
                 out[-1]["aliases"] = aliases(t)
                 for i, x in enumerate(tables):
                     if i != t and x["data"] == tables[t]["data"]:
-                        x["dead"] = True
+                        x["fresh"] = False
+                        if not stale_mode:
+                            x["dead"] = True
         elif k == "where":
-            tables.append({"data": tables[t]["data"], "view": True, "dead": False})
+            tables.append({"data": tables[t]["data"], "view": True, "dead": False, "fresh": tables[t].get("fresh", True), "lag": tables[t].get("lag", False)})
         elif k == "copy":
-            tables.append({"data": tables[t]["data"], "view": tables[t]["view"], "dead": False})
+            tables.append({"data": tables[t]["data"], "view": tables[t]["view"], "dead": False, "fresh": tables[t].get("fresh", True)})
     return out
 
 
@@ -592,6 +607,7 @@ class Runner:
         self.cur_t = None
         self.last_sig = None
         self.live = {}       # (table id, column) -> the column object handed to the current where as a probe collection
+        self.poisoned = set()  # stale mode: objects left alone after a mutation through another object raised
 
     def resolve(self, op, tables):
         """a probe collection given as {"col": [table id, column]} is the live column `tables[id][column]` (a list of a table
@@ -642,6 +658,8 @@ class Runner:
                 self.lin_obs = observe(tables[self.lin_cur]) if tables[self.lin_cur] is not None else None
             moves = not self.lin_stop and not p["skip"] and k in ("where", "copy") and op["t"] == self.lin_cur
             self.mop_case.append(n)
+            if op.get("t", 0) in self.poisoned:
+                p = dict(p, skip=True)
             if p["skip"]:
                 self.obs.append({"skip": True})
                 self.model_ops.append({"op": "skip", "creates": p["creates"]})
@@ -682,8 +700,20 @@ class Runner:
                         before[j] = snap(tables[j])
                     except Exception:  # noqa
                         pass
+            nfails = len(self.fails)
             getattr(self, "do_" + k)(n, op, t, tables, cols, rows, idx)
-            if k in ("groupby", "copy"):
+            if case.get("stale") and k in ("insert", "index") and tables[op["t"]] is None:
+                # a mutation that raised may have permuted some of the shared lists before it did (index: column by column): what the
+                # other objects show then is not modelled - they are left alone from here on
+                self.poisoned = set(range(len(tables))) - {op["t"]}
+                self.tags.append("stale:mutation-raised")
+            if p.get("stale"):
+                # the object was mutated under by another object (findings C17-F19/F20): the property claims nothing of its answers;
+                # they are compared with the machine with caches (A) only.  Mutations THROUGH it still count for its siblings below.
+                del self.fails[nfails:]
+                self.last_sig = None
+                self.tags.append("stale:" + k)
+            if k in ("groupby", "copy") and not p.get("stale"):
                 try:
                     after = snap(t)
                 except Exception as e:  # noqa
@@ -700,7 +730,7 @@ class Runner:
                     self.model_ops.append({"op": "peek", "t": j})
                     self.mop_case.append(None)
                     self.tags.append("alias:peek-" + ("copy" if sibling else "view"))
-                    if sibling:
+                    if sibling and not p.get("stale"):
                         try:
                             after = snap(tables[j])
                         except Exception as e:  # noqa
@@ -1227,6 +1257,7 @@ class Gen:
     def __init__(self, rng, boundary=False):
         self.r = rng
         self.boundary = boundary
+        self.stale = False       # Phase 4: keep operating on aliases after another object mutated the shared lists
         # tiny per-column alphabets so that duplicates, ties and absent probes are frequent
         self.kind = {}
         self.ncols = rng.choice([1, 2, 2, 3, 3, 4])
@@ -1502,7 +1533,8 @@ class Gen:
                                     vs[:] = [list(pat[j % len(pat)]) for j in range(len(vs))]
                 ops.append(op)
                 t["cols"] = newcols
-                self.taint(tabs, ti)
+                if not self.stale:
+                    self.taint(tabs, ti)
             elif x < 40:
                 k = r.wchoice([(1, 0), (5, 1), (4, 2), (2, 3)])
                 pool = list(t["cols"])
@@ -1515,7 +1547,8 @@ class Gen:
                     ix.insert(r.below(len(ix) + 1), "f")
                 ops.append({"op": "index", "t": ti, "cols": ix})
                 t["idx"] = [c for c in ix if c in t["cols"]]
-                self.taint(tabs, ti)
+                if not self.stale:
+                    self.taint(tabs, ti)
             elif x < 82:
                 if not t["cols"]:
                     continue
@@ -1546,7 +1579,50 @@ class Gen:
             else:
                 ops.append({"op": "copy", "t": ti})
                 tabs.append(dict(t, cols=list(t["cols"]), idx=list(t["idx"])))
+        if self.stale:
+            return {"init": init, "ops": ops, "stale": True}
         return {"init": init, "ops": ops}
+
+    def stale_script(self):
+        """Phase 4: a short history aimed at the stale `_lohis` cache: index (cache warm), optionally a query, an alias (copy or view),
+        a mutation through one of the two, then queries on the indexed columns through both."""
+        r = self.r
+        cols = list(COLS[:max(self.ncols, 2)])
+        n0 = r.choice([2, 3, 4, 6, 8])
+        ops = [{"op": "insert", "t": 0, "shape": "rows", "rows": [[self.cell(c) for c in cols] for _ in range(n0)]}]
+        idx = [cols[0]] if r.chance(0.6) else [cols[0], cols[1]]
+        ops.append({"op": "index", "t": 0, "cols": list(idx)})
+        tabs = [0]
+        nt = 1
+        self._live = [(0, list(cols))] * 2
+        if r.chance(0.5):
+            ops.append(self.where(0, cols, idx)); nt += 1
+        if r.chance(0.75):
+            ops.append({"op": "copy", "t": 0})
+        else:
+            ops.append(self.where(0, cols, idx))
+        alias = nt
+        nt += 1
+        is_copy = ops[-1]["op"] == "copy"
+        for _ in range(r.choice([1, 1, 2])):
+            through = alias if (is_copy and r.chance(0.5)) else 0
+            if r.chance(0.7):
+                op, _c = self.insert(through, cols, None)
+                if op["shape"] != "rows" and r.chance(0.6):
+                    op = {"op": "insert", "t": through, "shape": "rows", "rows": [self.row(cols) for _ in range(r.choice([1, 2, 3]))]}
+                ops.append(op)
+            else:
+                ops.append({"op": "index", "t": through, "cols": [r.choice(cols)]})
+            for _q in range(r.choice([2, 3, 4])):
+                who = r.choice([0, alias])
+                if r.chance(0.8):
+                    kc = r.choice(idx)
+                    o = r.choice(["=", "=", "<", "<=", ">", ">=", "!=", "in"])
+                    arg = {"l": [self.probe(kc) for _ in range(r.choice([1, 2]))]} if o == "in" else {"d": [o, {"v": self.probe(kc)}]}
+                    ops.append({"op": "where", "t": who, "pred": None, "pos": None, "kws": [[kc, arg]]}); nt += 1
+                else:
+                    ops.append({"op": "groupby", "t": who, "level": r.below(len(idx)), "select": r.choice([None, "count"])})
+        return {"init": {"kind": "columns", "columns": cols}, "ops": ops, "stale": True}
 
     @staticmethod
     def taint(tabs, ti):
@@ -1965,8 +2041,11 @@ class C17(Property):
         "table objects sharing storage (copy()/where()): the model gives every object of a run the mutated dict (`share`); each alias is looked at once, "
         "right after the mutation (rows/columns/indexes, (A)); what an alias does afterwards (its cached _lohis) is not modelled and not observed",
         "Phase 4: the per-object `_lohis` cache is modelled (CObj / stepC: None / {} / dict, filled by where and groupby, reset by insert, recomputed by index, handed on by copy); the driver runs "
-        "stepC on every case next to step and the code must agree with both; operations on an alias AFTER another object has mutated the shared lists are still not performed by the harness "
-        "(plan() skips them), so the stale-cache branch of stepC is exercised by the Lean counterexample only",
+        "stepC on every case next to step and the code must agree with both; 16 % of the generated cases (and four corpus cases) are `stale` histories: aliases stay alive after another object "
+        "has mutated the shared lists and go on being queried / mutated; what a stale object answers is compared with stepC only ((A) `A:cached:*`; the cache-free model is not consulted for these cases), "
+        "(B) is asked of fresh objects only (F19/F20 signatures unchanged). Not performed even then: copy() of a stale object (Table.__init__ takes its `else` branch when the dict gained a column: "
+        "an independent table - separate storages are not modelled), insert/index through a stale object after another object's dict/column-mapping insert (lists of different lengths: IndexError "
+        "in the code where the model pads), and anything on the other objects after a mutation raised (index permutes column by column before it raises)",
         "Phase 4 translator: Generated/C17Ops.lean is rewritten on every run from coba/results/core.py (ast): Literal of where(comparison=), keys unpacked by _compare, operators excluded from the "
         "bisect branch, and per operator block of _compare the my_bisect_left/right calls, the scan comparison and the `c is not None` guard; ops_table_eq_source proves it equal to the model's opTable "
         "(the extraction reads call names and comparison node types, not the arithmetic around them)",
@@ -2018,6 +2097,7 @@ class C17(Property):
         "multi_inv_reachable": "needs cfg.resortInsert and OKC (opOK for every operation on a FRESH object when its turn comes); says nothing of an object after ANOTHER object has "
                                "mutated the shared lists (fresh = false: findings C17-F19/F20, stale_cache_counterexample); freshness is never regained in the ghost flag (a later index() through the stale object is not credited)",
         "where_every_live_object": "as multi_inv_reachable plus whereOK for the query; about the cached lohis (effLohis / pwhereWith)",
+        "pyLt_class_order": "per comparable class (numbers, strings); sorted() itself is still the trusted 'TypeError iff two non-Missing members are incomparable, else stable arrangement' - the comparison it uses is now characterised (pyLt_raises_iff), the sort algorithm is not modelled",
         "copy_independent": "only for where/groupby/copy/listing; insert/index through one object change the others (recorded findings C17-F19/F20)",
     }
 
@@ -2045,7 +2125,15 @@ class C17(Property):
         return notes
 
     def generate(self, rng, tier):
-        return Gen(rng).case()
+        g = Gen(rng)
+        if rng.chance(0.16):
+            # histories that go on using an alias (copy / view) after another object has mutated the shared lists
+            g.stale = True
+            if rng.chance(0.5):
+                return g.stale_script()
+            g.ncols = max(g.ncols, 2) if rng.chance(0.7) else g.ncols
+            return g.case(nops=rng.choice([3, 4, 6, 8, 10]))
+        return g.case()
 
     def search(self, rng, tier):
         g = Gen(rng, boundary=True)
@@ -2154,6 +2242,21 @@ class C17(Property):
         cs.append(mk("ab", [[1, "x"], ["M", "y"], [2, "M"], ["M", "M"], [1, "y"]], IX(0, "a", "b"), W(0, a=V("M")), W(0, a={"d": [">", V(1)]}), W(0, a={"d": ["<", V(5)]}),
                      W(0, b={"d": ["!=", V("y")]}), {"op": "groupby", "t": 0, "level": 1, "select": {"many": ["a", "b"]}}, {"op": "copy", "t": 0}, W(6, a=L(1, "M"))))
         cs.append(mk("ab", [[1, 1.0], [1.0, 1], [0.5, 2], [2, 0.5]], IX(0, "a", "b"), W(0, a=V(1)), W(0, a=L(1, 1.0)), W(0, b={"d": ["<=", V(1)]}), {"op": "groupby", "t": 0, "level": 1, "select": "count"}))
+        # Phase 4: histories that go on using the ORIGINAL after its copy / view-parent mutated the lists (compared with stepC, (A) only on the stale object)
+        rows4 = [[1, "z"], [2, "x"], [1, "y"], [3, "w"]]
+        st = []
+        st.append(mk("a", [[1], [2]], IX(0, "a"), W(0, a=V(1)), {"op": "copy", "t": 0}, {"op": "insert", "t": 2, "shape": "rows", "rows": [[["i", 0]], [["i", 5]]]},
+                     W(0, a=V(5)), W(0, a=V(0)), W(2, a=V(5)), {"op": "groupby", "t": 0, "level": 0, "select": "count"}, {"op": "groupby", "t": 2, "level": 0, "select": "count"},
+                     {"op": "insert", "t": 0, "shape": "rows", "rows": [[["i", 7]]]}, W(0, a=V(7)), W(2, a=V(7))))
+        st.append(mk("ab", rows4, IX(0, "a"), {"op": "copy", "t": 0}, IX(1, "b"), W(0, a=V(1)), W(0, a=V(3)), W(1, b=V("x")), {"op": "groupby", "t": 0, "level": 0, "select": "count"},
+                     IX(0, "a"), W(0, a=V(1)), IX(0, "b", "a"), W(0, a=V(1)), W(1, b=V("x"))))
+        st.append(mk("ab", rows4, IX(0, "a"), W(0, a=L(1, 2)), IX(0, "b"), W(1, a=V(1)), W(1, b=V("x")), {"op": "copy", "t": 1}, W(3, a=V(2)),
+                     {"op": "insert", "t": 0, "shape": "rows", "rows": [[["i", 0], ["s", "a"]]]}, W(1, a=V(1)), W(0, b=V("a"))))
+        st.append(mk("ab", rows4, {"op": "copy", "t": 0}, IX(0, "a", "b"), {"op": "groupby", "t": 0, "level": 1, "select": "count"}, W(1, a=V(1)), IX(1, "b"), W(0, a=V(1), b=V("y")),
+                     {"op": "groupby", "t": 0, "level": 1, "select": None}, {"op": "groupby", "t": 1, "level": 0, "select": "count"}))
+        for c in st:
+            c["stale"] = True
+        cs.extend(st)
         cs.extend(vt_corpus())
         return cs
 
@@ -2227,7 +2330,7 @@ class C17(Property):
             ans = driver.ask({"cfg": run.cfg, "init": minit, "ops": run.model_ops})
             model = ans["model"]
             labels = ["init"] + [op["op"] for op in run.model_ops]
-            for k, (o, m) in enumerate(zip(run.obs, model)):
+            for k, (o, m) in enumerate(zip(run.obs, model) if not case.get("stale") else []):
                 if o != m:
                     what = "after model op #%d (%s %s): implementation %s, model %s" % (k - 1, labels[k], json.dumps(run.model_ops[k - 1])[:300] if k else "", json.dumps(o)[:400], json.dumps(m)[:400])
                     fails.append(F("A", what, "A:" + labels[k]))
@@ -2244,6 +2347,8 @@ class C17(Property):
                         break
                 if len(cached["obs"]) != len(run.obs):
                     fails.append(F("A", "machine with caches answered %d observations for %d" % (len(cached["obs"]), len(run.obs)), "A:cached:length"))
+                if case.get("stale") and any(a != b for a, b in zip(cached["obs"], model)):
+                    tags.append("stale:answer-differs-from-cache-free-model")     # the stale cache / stale view really matters in this case
                 tags.append("M:okc-" + ("holds" if cached["okc"] else "fails"))
                 tags.append("M:objects-fresh:%d" % min(cached["fresh"], 4)); tags.append("M:objects-stale:%d" % min(cached["stale"], 4)); tags.append("M:warm-caches:%d" % min(cached["warm"], 3))
                 if cached["okc"] and not cached["good_end"]:
@@ -2331,6 +2436,12 @@ class C17(Property):
                 if len(v["probes"]) > 1:
                     yield {"vt": dict(v, probes=v["probes"][:k] + v["probes"][k + 1:])}
             return
+        for c in self._shrink_ops(case):
+            if case.get("stale"):
+                c["stale"] = True
+            yield c
+
+    def _shrink_ops(self, case):
         ops = case["ops"]
         init = case["init"]
         # drop an operation (renumbering later table ids when the dropped one created a table)
